@@ -72,6 +72,9 @@ func (u *Unit) smtHeader(ncmds int) string {
 
 // smtFile renders the SMT-LIB query of one obligation.
 func (o *Obligation) smtFile(timeoutMs int) string {
+	if o.rawSMT != "" {
+		return o.rawSMT
+	}
 	u := o.unit
 	var sb strings.Builder
 	sb.WriteString(u.smtHeader(o.NCmds))
